@@ -13,6 +13,7 @@ if __name__ == "__main__":
     try:
         for scn, bound in mod.scenarios(tier):
             if only and scn["name"] not in only: continue
+            if hasattr(mod, "prepare"): mod.prepare(ex, scn)
             r = ex.explore(scn, bound, lambda s, res: e2prop.base_oracle(s, res) + mod.oracle(s, res), budget_s=300)
             print("##", scn["name"], {k: r[k] for k in ("schedules", "bound_done", "outcomes", "verdicts", "retries")}, r["sched_errors"][:2])
             for devs, sig, detail in r["violations"]:
